@@ -175,6 +175,9 @@ def report(ctx, case, r, label=""):
         if kind in seen:
             continue
         seen.add(kind)
+        if any(v["key"] == kind for v in ctx.violations):
+            ctx.violation(kind, "", None)         # same defect class again: only counted
+            continue
         small = shrink(case, kind)
         r2 = full(small)
         det = next((d for k, d in r2.bad if k == kind), detail)
